@@ -1,9 +1,11 @@
 package main
 
 import (
+	"fmt"
 	"go/ast"
 	"go/token"
 	"go/types"
+	"strings"
 
 	"golang.org/x/tools/go/packages"
 )
@@ -12,7 +14,7 @@ func newIdxAnalyzer(r *Run, pkg *packages.Package) *idxAnalyzer {
 	a := &idxAnalyzer{r: r, pkg: pkg, info: pkg.TypesInfo, retLE: map[types.Object][]retFact{}, writes: map[*types.Func]map[string]bool{},
 		declOf: map[*types.Func]*ast.FuncDecl{}, callStates: map[*types.Func][]callCtx{},
 		pre: map[types.Object][]prePair{}, preLevel: map[types.Object]int{}, litOf: map[types.Object]*ast.FuncLit{},
-		inv: map[*types.Named][]invPair{}, invBad: map[string]bool{}, mono: map[*types.Func]map[string]bool{}, lenKeep: map[*types.Func]bool{}}
+		progress: map[ast.Node]*progSite{}, delta: map[*types.Func]map[string]fieldDelta{}, inv: map[*types.Named][]invPair{}, invBad: map[string]bool{}, mono: map[*types.Func]map[string]bool{}, lenKeep: map[*types.Func]bool{}}
 	a.track = func(t types.Type) bool {
 		switch u := t.Underlying().(type) {
 		case *types.Basic:
@@ -145,6 +147,7 @@ func (a *idxAnalyzer) analyseFunc(fd *ast.FuncDecl) {
 	a.walkBody(fd.Body, a.entryZone())
 	if obj != nil {
 		a.summariseUnit(obj, obj.Type().(*types.Signature), fd.Type, fd.Body)
+		a.summariseDeltas(obj, fd)
 	}
 	ast.Inspect(fd.Body, func(n ast.Node) bool {
 		if l, ok := n.(*ast.FuncLit); ok {
@@ -193,12 +196,50 @@ func (a *idxAnalyzer) walkBody(body *ast.BlockStmt, entry *zone) {
 			}
 			z.closed = false
 		}
+		for k := range z.e {
+			if strings.HasPrefix(k[0], "pre#") || strings.HasPrefix(k[1], "pre#") {
+				delete(z.e, k)
+			}
+		}
 		li.prev = z.clone()
+		if fs, ok := l.(*ast.ForStmt); ok {
+			if ck, _ := a.loopCursor(fs); ck != "" {
+				g := fmt.Sprintf("ghost#%d", fs.Pos())
+				z.forget(g)
+				z.neg[g] = z.neg[ck]
+				z.add(g, ck, 0)
+				z.add(ck, g, 0)
+			}
+		}
 		return z
 	}
+	checkBack := func(fs *ast.ForStmt, site ast.Node, st State) {
+		ck, cname := a.loopCursor(fs)
+		if ck == "" {
+			return
+		}
+		ps := a.progress[site]
+		if ps == nil {
+			ps = &progSite{fn: a.curFn, loop: fs, site: site, cursor: cname, ok: true}
+			a.progress[site] = ps
+		}
+		z := st.(*zone)
+		ps.seen = true
+		if !z.le(fmt.Sprintf("ghost#%d", fs.Pos()), ck, -1) {
+			ps.ok = false
+			if idxDebug != "" && strings.Contains(a.r.pos(site.Pos()), idxDebug) {
+				fmt.Printf("IDXDEBUG progress %s cursor=%s\n   %s\n", a.r.pos(site.Pos()), ck, z.dump())
+			}
+		}
+	}
+	h.BackEdge = func(fs *ast.ForStmt, st State) { checkBack(fs, fs, st) }
+	h.BackEdgeAt = func(fs *ast.ForStmt, site ast.Node, st State) { checkBack(fs, site, st) }
 	h.Cond = func(e ast.Expr, truth bool, st State) State {
 		z := st.(*zone)
 		a.refine(z, e, truth)
+		if z.inconsistent() {
+			return nil // this branch is infeasible
+		}
 		return z
 	}
 	h.Visit = func(e ast.Expr, st State) State {
@@ -343,8 +384,16 @@ func (a *idxAnalyzer) walkBody(body *ast.BlockStmt, entry *zone) {
 	h.Return = func(rs *ast.ReturnStmt, st State) {
 		a.retStates = append(a.retStates, retCtx{rs, st.(*zone).clone()})
 		a.checkInvAtExit(st.(*zone))
+		if a.exitHook != nil {
+			a.exitHook(st.(*zone), rs)
+		}
 	}
-	h.End = func(st State) { a.checkInvAtExit(st.(*zone)) }
+	h.End = func(st State) {
+		a.checkInvAtExit(st.(*zone))
+		if a.exitHook != nil {
+			a.exitHook(st.(*zone), nil)
+		}
+	}
 	WalkFunc(h, body, entry)
 }
 
@@ -372,6 +421,25 @@ func (a *idxAnalyzer) assignOp(z *zone, lhs ast.Expr, op token.Token, rhs ast.Ex
 		return
 	}
 	if op == token.ADD {
+		// r += a (+c) where r is an offset into seq[a:]: the result is an absolute position
+		if ak, ok := r.single(); ok {
+			if o, ok := z.offOf[key]; ok && o.base == ak {
+				z.close()
+				minR := o.minR
+				if w, ok := z.e[[2]string{zeroTerm, key}]; ok && -w > minR {
+					minR = -w
+				}
+				z.forget(key)
+				z.add(key, "len("+o.seq+")", r.c-o.plus)
+				z.add(ak, key, -(minR + r.c)) // key >= a + minR + c
+				if !z.neg[ak] && minR+r.c >= 0 {
+					z.add(zeroTerm, key, 0)
+				} else {
+					z.neg[key] = true
+				}
+				return
+			}
+		}
 		// x += r + c where r is relative to a suffix starting at x
 		if rk, ok := r.single(); ok {
 			if o, ok := z.offOf[rk]; ok && o.base == key {
@@ -407,4 +475,53 @@ func (a *idxAnalyzer) assignOp(z *zone, lhs ast.Expr, op token.Token, rhs ast.Ex
 	}
 	z.forget(key)
 	z.neg[key] = true
+}
+
+// loopCursor finds the cursor of a loop `for … X < E …` / `X+k <= E`: the integer term that the
+// condition bounds from above. Returns its term key and display name.
+func (a *idxAnalyzer) loopCursor(fs *ast.ForStmt) (string, string) {
+	if fs.Cond == nil {
+		return "", ""
+	}
+	var find func(e ast.Expr) (string, string)
+	find = func(e ast.Expr) (string, string) {
+		be, ok := ast.Unparen(e).(*ast.BinaryExpr)
+		if !ok {
+			return "", ""
+		}
+		switch be.Op {
+		case token.LAND:
+			if k, n := find(be.X); k != "" {
+				return k, n
+			}
+			return find(be.Y)
+		case token.LSS, token.LEQ:
+			l, ok := a.lin(be.X)
+			if !ok {
+				return "", ""
+			}
+			// the first plain variable / field on the left side
+			for k, v := range l.t {
+				if v == 1 && !strings.HasPrefix(k, "len(") {
+					name := k
+					if i := strings.Index(name, "@"); i >= 0 {
+						name = name[:i] + name[strings.IndexAny(name[i:]+".", ".")+i:]
+					}
+					return k, strings.TrimSuffix(name, ".")
+				}
+			}
+		case token.GTR, token.GEQ:
+			l, ok := a.lin(be.Y)
+			if !ok {
+				return "", ""
+			}
+			for k, v := range l.t {
+				if v == 1 && !strings.HasPrefix(k, "len(") {
+					return k, k
+				}
+			}
+		}
+		return "", ""
+	}
+	return find(fs.Cond)
 }
